@@ -18,6 +18,8 @@ TouchedFields(r) ==
 WellFormed(r) ==
   IF r.kind = "bytes"
   THEN r.pos \in PosClasses /\ ToSet(r.changed) \subseteq FieldsOfKind(KindAt(r.pos))
+       /\ r.permille \in 0..999 /\ r.bit \in 0..7
+  ELSE IF r.kind = "trunc" THEN r.pos \in PosClasses /\ r.permille \in 1..999
   ELSE CaseOf(r) \in TamperCases
 
 \* the tampered model log for the executed case
@@ -29,14 +31,21 @@ ModelLog(r) ==
 \* a tamper that turned out to be the identity on the real bytes (e.g. clearing an empty field)
 NoOp(r) == ~r.applied
 
+\* byte level: a stream that no longer decodes into the same number of entries is rejected by the
+\* decoder or (entries lost / merged) by the chain check; a cut inside an entry either drops the
+\* partial entry (pure suffix cut) or fails to decode
+Derailed(r) == r.kind \in {"bytes", "trunc"} /\ (r.structure \/ r.decode_err)
+
 ModelAccepts(r) ==
   IF NoOp(r) THEN TRUE
-  ELSE IF r.kind = "bytes" /\ (r.structure \/ r.decode_err) THEN FALSE
+  ELSE IF Derailed(r) THEN FALSE
+  ELSE IF r.kind = "trunc" THEN TRUE
   ELSE Validate(ModelLog(r)).ok
 
 RealChange(r) ==
   IF NoOp(r) THEN FALSE
-  ELSE IF r.kind = "bytes" /\ (r.structure \/ r.decode_err) THEN TRUE
+  ELSE IF Derailed(r) THEN TRUE
+  ELSE IF r.kind = "trunc" THEN FALSE
   ELSE ~IsPrefixOfL(ModelLog(r))
 
 \* the harness must have applied what the case says: the named fields differ after decoding
@@ -66,7 +75,7 @@ Report(i) ==
   ELSE PrintT(ToJson([l |-> i, verdict |-> v,
                       tag |-> IF v = "finding" THEN TagOf(TouchedFields(r)) ELSE "",
                       model_accepts |-> IF r.kind = "rt" \/ v \in {"malformed", "notapplied"} THEN FALSE ELSE ModelAccepts(r),
-                      model_reason |-> IF r.kind = "rt" \/ v \in {"malformed", "notapplied"} \/ NoOp(r) \/ (r.kind = "bytes" /\ (r.structure \/ r.decode_err))
+                      model_reason |-> IF r.kind \in {"rt", "trunc"} \/ v \in {"malformed", "notapplied"} \/ NoOp(r) \/ Derailed(r)
                                        THEN "" ELSE Validate(ModelLog(r)).reason]))
 
 TInit == l = 1 /\ Logs /\ case = [kind |-> "trace"]
